@@ -175,7 +175,7 @@ def run(ctx):
             why = 'reports or re-raises'
         ctx.check(ok, 'C18.2', 'parse-caller:%s' % f.qual, f.loc(s.node), 'the caller of matcher.parse handles RuntimeError and %s' % why,
                   '%s calls matcher.parse without reporting a RuntimeError' % f.short)
-    ctx.floor('C18.2', len(psites), 5, 'callers of matcher.parse')
+    ctx.floor('C18.2', len(psites), 3, 'callers of matcher.parse')
     f_list = repo.func('Controller.list_command')
     for n in f_list.body_nodes():
         if isinstance(n, ast.Call) and isinstance(n.func, ast.Name) and n.func.id in ('int', 'float'):
